@@ -44,6 +44,7 @@ def scenario(max_depth: int = 120, max_steps: Optional[int] = 2000000) -> C.Scen
     sc.plain_registers = True
     sc.apply_decorators = True
     sc.ctypes_model = True
+    sc.lazy_generators = True
     sc.max_depth = max_depth
     sc.max_loop = 100000  # (whole programs run here; runaway loops are caught by the step bound)
     if max_steps:
@@ -56,7 +57,16 @@ def scenario(max_depth: int = 120, max_steps: Optional[int] = 2000000) -> C.Scen
 def outcome(fn, *args, **kw) -> Tuple:
     """("ok", value) | ("raises", exception name, message) | ("loops",) for a call into the interpreter"""
     try:
-        return ("ok", fn(*args, **kw))
+        v = fn(*args, **kw)
+        if isinstance(v, C.LazyGen):
+            # a generator is run to its end, as the backends do (`for _ in executor.execute_subroutine(...)`); its value is what it returns
+            while True:
+                try:
+                    next(v)
+                except StopIteration as stop_:
+                    v = stop_.value
+                    break
+        return ("ok", v)
     except C.EvalRaise as ex_:
         return ("raises", ex_.exc_name, str(ex_))
     except C.StepLimit:
@@ -205,3 +215,35 @@ def same_behaviour(t1, t2) -> Optional[str]:
         elif a != b:
             return f"event {k_}: {a} vs {b}"
     return None
+
+
+_FORK_STATE: Dict[str, Any] = {}
+
+
+def _fork_call(k):
+    try:
+        return ("ok", _FORK_STATE["fn"](_FORK_STATE["ctx"], _FORK_STATE["items"][k]))
+    except AnalysisError as ex_:
+        return ("analysis-error", str(ex_))
+    except Exception as ex_:  # pragma: no cover - reported by the caller as an analysis error
+        import traceback
+        return ("analysis-error", f"{type(ex_).__name__}: {ex_} @ {traceback.format_exc().strip().splitlines()[-3:]}")
+
+
+def parallel_map(ctx, fn, items: List[Any], jobs: int = 12) -> List[Any]:
+    """fn(ctx, item) for every item, in forked worker processes (the loaded repository is inherited, nothing is pickled but the
+    results); the results in order.  An AnalysisError in a worker is raised here."""
+    import multiprocessing
+    import os
+    if len(items) < 4 or os.environ.get("NQSA_SERIAL"):
+        return [fn(ctx, it) for it in items]
+    _FORK_STATE.update({"fn": fn, "ctx": ctx, "items": items})
+    try:
+        with multiprocessing.get_context("fork").Pool(min(jobs, len(items), os.cpu_count() or 1)) as pool:
+            res = pool.map(_fork_call, range(len(items)), chunksize=1)
+    finally:
+        _FORK_STATE.clear()
+    for r_ in res:
+        if r_[0] != "ok":
+            raise AnalysisError(r_[1])
+    return [r_[1] for r_ in res]
